@@ -23,6 +23,8 @@ ASSUMPTIONS = [
     'a namespace and its "::" are one lexical unit (no gap is inserted there); "//" comments end with a line break',
     'exponent forms of reals are limited to those the dialect lexes as one token (1e3, 2.E+4, not 2.5e3)',
     'phrases and strings are content, not layout',
+    'the parser is also called on pairs of texts that differ only in blank space inside literals/phrases or in the line break '
+    'ending a // comment, one after the other in one process (a tree is a function of the text alone)',
 ]
 
 
@@ -103,6 +105,53 @@ def layout_task(ctx, task):
         ctx.distinct('productions', n)
 
 
+def near_items():
+    '''Programs whose texts differ only in blank space where blank space is content (string literals, phrases) or is
+    significant (the line break that ends a // comment): (statements, layout description).'''
+    V, I = F.V, F.I
+    x1 = ('assign', V('x'), I(1), False)
+    y2 = ('assign', V('y'), I(2), False)
+    items = []
+    for lit in ('a  b', 'a b', 'a\tb', ' a b', 'a b ', 'ab'):
+        items.append(([('assign', V('m'), ('str', lit), False)], 'default'))
+        items.append(([x1, ('assign', V('m'), ('bin', '+', ('str', lit), ('str', 'a b')), False)], ['uniform', '\n']))
+    for ph in ('is a', 'is  a', 'isa', ' is a'):
+        items.append(([('relate', 'a', 'b', 'R1', F.T(ph), None)], 'default'))
+    two = A.print_program([x1, y2])
+    iy = [i for i, t in enumerate(two.toks) if t.text == 'y'][0]
+    for gap in (' // reset\n', ' /* reset */ ', '\n', ' '):
+        items.append(([x1, y2], ['gap', iy, gap]))
+    items.append(([x1], ['trail', ' // reset y = 2;']))
+    items.append(([x1], ['trail', ' /* reset\n*/ // y = 2;']))
+    items.append(([x1], 'default'))
+    return items
+
+
+def near_task(ctx, task):
+    '''Ordered pairs of near-identical texts parsed one after the other in ONE process: the second must parse to its own tree.'''
+    prop, positions, lo, hi = task
+    from bridgepoint import oal
+    items = near_items()
+    pairs = [(i, j) for i in range(len(items)) for j in range(len(items))]
+    for i, j in pairs[lo:hi]:
+        pre_stmts, pre_layout = items[i]
+        text, _ = A.assemble(A.print_program(pre_stmts), F.layout_from(pre_layout))
+        ctx.count('parses')
+        try:
+            oal.parse(text)
+        except Exception:
+            pass        # judged when the item is the second of a pair
+        stmts, layout = items[j]
+        ctx.count('near_pairs')
+        case = dict(kind='near', family='near', pre=[pre_stmts, pre_layout], stmts=stmts, paren='minimal')
+        if check_text(ctx, prop, A.print_program(stmts), layout, positions, case, 'near'):
+            ctx.distinct('nontrivial', ('near', i, j))
+
+
+def near_count():
+    return len(near_items()) ** 2
+
+
 def chunks(seq, n):
     return [seq[i:i + n] for i in range(0, len(seq), n)]
 
@@ -121,6 +170,8 @@ def run_families(ctx, prop, positions):
     for e in F.LEAVES_ALL:
         progs.append(('leaflayout', 'leaf', [('assign', ('var', 'x'), ('bin', '+', e, e), False)], 'minimal'))
     ctx.pmap(layout_task, [(prop, positions, ctx.tier, c) for c in chunks(progs, 4)])
+    ctx.pmap(near_task, [(prop, positions, i, i + 60) for i in range(0, near_count(), 60)])
+    ctx.require(ctx.n('near_pairs') >= 400, 'too few pairs of near-identical texts (%d)' % ctx.n('near_pairs'))
     ctx.sample(dict(expression=exprs[len(exprs) // 2][1], text=A.assemble(A.print_expression(exprs[len(exprs) // 2][1]))[0]))
     nm, st = F.statement_family()[40]
     ctx.sample(dict(statement=nm, text=A.assemble(A.print_program(st), A.Layout(default='\n'))[0]))
@@ -145,6 +196,20 @@ def replay_case(ctx, prop, positions, case):
     if case['kind'] == 'expr':
         p = A.print_expression(case['expr'], case['paren'])
         check_text(ctx, prop, p, case.get('layout'), positions, case, case['family'])
+    elif case['kind'] == 'near':
+        # the run parses the pairs of one task in sequence in one process: replay every other item first, then the recorded
+        # predecessor, then the item itself
+        from bridgepoint import oal
+        target = A.assemble(A.print_program(case['stmts']), F.layout_from(case.get('layout')))[0]
+        for stmts, layout in near_items() + [tuple(case['pre'])]:
+            text = A.assemble(A.print_program(stmts), F.layout_from(layout))[0]
+            if text == target:
+                continue
+            try:
+                oal.parse(text)
+            except Exception:
+                pass
+        check_text(ctx, prop, A.print_program(case['stmts']), case.get('layout'), positions, case, 'near')
     else:
         p = A.print_program(case['stmts'], case['paren'])
         desc = case.get('layout')
